@@ -33,10 +33,8 @@ Definition run_walk (name : str) (args : list str) : str :=
                 o_case := tbool cs |} in
     let start := match lookup t (match resolve (comps path) with Some c => c | None => [] end) with
                  | Some n => n | None => t end in
-    (* Walker.walk normalises its start path; files/dirs/info use it as given *)
-    let path := if str_eqb name (lit "walk")
-                then match normpath path with Ok n => abspath n | _ => path end
-                else path in
+    (* Walker._iter_walk normalises the start path (walk, files, dirs and info alike; /repo b3334b1) *)
+    let path := match normpath path with Ok n => abspath n | _ => path end in
     match walk_model o (tbool df) path start with
     | None => lit "crash:NonTermination"
     | Some evs =>
